@@ -83,9 +83,11 @@ LEVEL_TEXT = ('Coq theorems over ALL schedules (induction on the step relation o
               'spurious wake-ups, any number of producers/callbacks/getters) for the transcribed ExecutorThread/'
               'ConsumerThread/Thread/FutureImpl programs: every shared-variable and queue access holds its protecting '
               'mutex (c17_lockset), exact lock ownership and popped-callback discipline at every program point '
-              '(c17_lock_discipline), no unlock by a non-owner; witness schedules for the three pre-fix defects. '
+              '(c17_lock_discipline), no unlock by a non-owner; for the FutureImpl raw-pointer pattern of DrainCallbacks '
+              '(c17_future_raw): no hazard (use-after-free, destroy-while-busy, ...) is reachable and a returned Get '
+              'returned the value set, after Set; witness schedules for the three pre-fix defects. '
               'PARTIAL: exactly-once/order/empty-at-shutdown (c17_exec_once), absence of lost wake-ups/deadlock and '
-              'use-after-free-freedom of FutureImpl are NOT proved for all schedules; they are checked per schedule '
+              'use-after-free-freedom of FutureImpl with several reference-holding copies are NOT proved for all schedules; they are checked per schedule '
               '(every single preemption, pairs of preemptions, spurious wake-ups, random) by trace equality between the '
               'extracted machine and the real classes under a cooperative scheduler, which reports deadlock, '
               'use-after-free, callback counts, executing thread and order.  ThreadPool, PeriodicThread, '
